@@ -526,6 +526,9 @@ func (e *Engine) harnessIntrinsic(st *State, f *Frame, fn *ssa.Function, name st
 			unsupp("vFmtArg operand is not an integer")
 		}
 		return ret(Resize(t, 64, isSigned(iv.t)))
+	case "vNoBlock":
+		st.noBlock = asTerm(args[0]).IsTrue()
+		return ret(nil)
 	case "vMutexFree":
 		p := args[0].(*PtrVal)
 		return ret(Bool(st.locks[e.lockKey(st, p)] == 0))
